@@ -39,6 +39,12 @@ def round_mpf(v, fmt):
     if mpmath.isnan(v):
         return "nan"
     sign, man, exp, bc = v._mpf_
+    p, ew, w = fpx.FMT[fmt]
+    top = int(exp) + int(bc)  # value in [2^(top-1), 2^top)
+    if top > (1 << (ew - 1)) + 2:  # far above the largest finite value: overflow (never build 2^exp)
+        return ((1 << ew) - 1 << (p - 1)) | ((1 << (w - 1)) if sign else 0)
+    if top < fpx.emin(fmt) - 2:  # far below half the smallest subnormal: rounds to (signed) zero
+        return (1 << (w - 1)) if sign else 0
     q = Fraction(int(man)) * (Fraction(2) ** int(exp))
     if sign:
         q = -q
@@ -120,6 +126,16 @@ def ref_complex(name, fmt, xb, yb):
                 return None
             res_re.add(v[0])
             res_im.add(v[1])
+
+    # the value at the exact zero itself (e.g. exp(x + 0i) has imaginary part 0 * e^x = 0 however large e^x is)
+    def compute0():
+        r = f(mpmath.mpc(mpf_of_bits(xb, fmt), mpf_of_bits(yb, fmt)))
+        return (mpmath.re(r), mpmath.im(r))
+
+    v0 = _ziv(compute0, fmt, start)
+    if v0 is not None:
+        res_re.add(v0[0])
+        res_im.add(v0[1])
     # results within rounding of zero approached through +-tiny: add exact signed zeros of both signs
     def widen(s):
         out = set(s)
